@@ -51,6 +51,31 @@ class FakeComm:
             recvbuf[...] = np.concatenate([np.asarray(s) for s in self.w.slots], axis=0).reshape(recvbuf.shape)
         self.w.barrier.wait()
 
+    def Reduce(self, sendbuf, recvbuf, op=None, root=0):
+        """sum-reduction of [array, type] buffers into root's [array, type]"""
+        self.w.jitter(self.rank, "reduce")
+        self.w.slots[self.rank] = np.array(sendbuf[0], copy=True)
+        self.w.barrier.wait()
+        if self.rank == root:
+            np.copyto(recvbuf[0], np.sum(np.stack([np.asarray(x) for x in self.w.slots]), axis=0).astype(recvbuf[0].dtype))
+        self.w.barrier.wait()
+
+    def Bcast(self, buf, root=0):
+        self.w.jitter(self.rank, "bcast")
+        if self.rank == root:
+            self.w.post = np.array(buf, copy=True)
+        self.w.barrier.wait()
+        np.copyto(buf, self.w.post)
+        self.w.barrier.wait()
+
+    def bcast(self, obj, root=0):
+        if self.rank == root:
+            self.w.post = obj
+        self.w.barrier.wait()
+        out = self.w.post
+        self.w.barrier.wait()
+        return out
+
     def Scatter(self, sendbuf, recvbuf, root=0):
         self.w.jitter(self.rank, "scatter")
         if self.rank == root:
@@ -89,3 +114,13 @@ def run_ranks(size, fn, seed=0):
         if e is not None:
             raise e
     return res, world.arrivals
+
+
+class FakeMPI:
+    """stand-in for the mpi4py MPI module as driver.afqmc uses it"""
+    FLOAT = None
+    INT = None
+    SUM = None
+
+    def __init__(self, comm):
+        self.COMM_WORLD = comm
